@@ -70,3 +70,18 @@ def text_classes(case):
 
 def render(case):
     return {"text": case["text"]["text"], "config": configs.to_text(case["cfg"], case["style"]), "entry": case["entry"]}
+
+
+def make_plss_or_skip(case, parse_qq=True):
+    """
+    For properties that speak about what a parse produced (C09, C10): a parse that raises produced nothing, which is a matter
+    for the totality property C03, not a violation of theirs.  Returns None (and counts the exclusion) in that case.
+    """
+    from .core import note_excluded, exception_failure
+    try:
+        return make_plss(case, parse_qq)
+    except Exception as exc:  # noqa
+        if exception_failure(exc, "parse") is None:      # not a library exception: harness trouble, let it propagate
+            raise
+        note_excluded("parse_raised_nothing_produced_(C03_decides)")
+        return None
